@@ -73,9 +73,11 @@ class Reflect(Contract):
     miss: constructs get_origin(cls)[deep types of args](*args) from exactly `args`, sets result._ast_values to the SAME
     argument objects (so a live entry keeps its identity-keyed arguments alive), alpha-mangles, and stores the mangled
     object under exactly the key of the original arguments; other entries untouched.  varargs are folded as the class
-    declares."""
+    declares.  The class of the constructed term is ALWAYS the origin class specialised to the deep types of the actual
+    arguments -- also when the class passed in is already specialised (reinterpret passes type(x), whose parameters describe
+    the OLD children): a term is an instance of its own recorded type, which is what pattern dispatch reads (C16)."""
 
-    props = ("C07",)
+    props = ("C07", "C16")
     file = "funsor/terms.py"
     qualname = "reflect"
     total = True
@@ -85,6 +87,7 @@ class Reflect(Contract):
         ("key computed from folded args but stored under a fresh key", "    cls._cons_cache[cache_key] = result\n", "    cls._cons_cache[reflect.make_hash_key(cls, *args[:1])] = result\n"),
         ("_ast_values copied", "result._ast_values = args", "result._ast_values = tuple(list(args))[:1]"),
         ("never caches", "    cls._cons_cache[cache_key] = result\n", "    pass\n"),
+        ("an already specialised class keeps its stale parameters (seeded C16_reflect_keeps_stale_type)", "    cls_specific = get_origin(cls)[arg_types]\n", "    cls_specific = cls if get_args(cls) else get_origin(cls)[arg_types]\n"),
     )
 
     def locate(self, mutant=None):
@@ -98,7 +101,7 @@ class Reflect(Contract):
         return super().locate(mutant)
 
     def structures(self, tier):
-        for kind in ("hit", "miss", "miss-mangled", "miss-varargs"):
+        for kind in ("hit", "miss", "miss-mangled", "miss-varargs", "miss-specialised-cls"):
             yield kind, kind
 
     def build(self, p, kind):
@@ -110,6 +113,7 @@ class Reflect(Contract):
         if kind == "hit":
             cache[key] = "cached-object"
         cls = ConsCls(cache)
+        cls.type_args = ("stale-parameter",) if kind == "miss-specialised-cls" else ()
         built = []
 
         class Obj:
@@ -154,7 +158,7 @@ class Reflect(Contract):
         class Instr:
             PROFILE = False
 
-        ctx.namespace = dict(reflect=Reflect_, deep_type=lambda x: ("type", id(x) if isinstance(x, Unhashable) else x), get_origin=lambda c: Origin(), _alpha_mangle=mangle, instrument=Instr, FunsorMeta="FunsorMeta")
+        ctx.namespace = dict(reflect=Reflect_, deep_type=lambda x: ("type", id(x) if isinstance(x, Unhashable) else x), get_origin=lambda c: Origin(), get_args=lambda c: getattr(c, "type_args", ()), _alpha_mangle=mangle, instrument=Instr, FunsorMeta="FunsorMeta")
         return ctx
 
     def hooks(self, ctx):
@@ -499,3 +503,62 @@ class ReshapeKeyInjective(Contract):
         a, ka, out, k0 = result
         inj = all(tuple(a) == tuple(b) for b, kb in out if kb == ka) and all(kb == ka for b, kb in out if tuple(a) == tuple(b))
         return [("equal_keys_iff_equal_shapes", inj), ("no_argument_call_has_the_generic_key", k0 == ((), ()))]
+
+
+@register
+class TensorMetaCall(Contract):
+    """TensorMeta.__call__(data, inputs, dtype): fills the defaults (inputs -> (), a dict -> tuple of its items, dtype "real")
+    and hands the constructor THE VERY ARRAY OBJECT it was given -- the intern key of a Tensor is the identity of its array
+    (make_hash_key), so wrapping a copy would make Tensor(a) is Tensor(a) false and leave x.data is not a.  Only a numpy scalar
+    (np.generic, which is hashable by value) is converted to a 0-d array."""
+
+    props = ("C07", "C20")
+    file = "funsor/tensor.py"
+    qualname = "TensorMeta.__call__"
+    total = True
+    mutants = (
+        ("non-contiguous arrays are copied (seeded C07_tensor_copies_noncontiguous)", "        if isinstance(data, np.generic):\n            data = data.__array__()\n", "        if isinstance(data, np.generic):\n            data = data.__array__()\n        elif not data.flags.c_contiguous:\n            data = np.ascontiguousarray(data)\n"),
+        ("inputs dict passed through unconverted", "            inputs = tuple(inputs.items())", "            pass"),
+    )
+
+    def structures(self, tier):
+        for kind in ("array", "strided-array", "numpy-scalar"):
+            for inputs in ("none", "dict", "tuple"):
+                yield "%s,inputs=%s" % (kind, inputs), (kind, inputs)
+
+    def build(self, p, st):
+        import numpy as np
+        from collections import OrderedDict
+
+        kind, inputs = st
+        data = {"array": np.arange(3.0), "strided-array": np.arange(6.0)[::2], "numpy-scalar": np.float64(1.5)}[kind]
+        ins = {"none": None, "dict": OrderedDict(i="Bint[3]"), "tuple": (("i", "Bint[3]"),)}[inputs]
+        calls = []
+
+        def sup(sc, *a):
+            class S:
+                def __call__(s, *cargs):
+                    calls.append(cargs)
+                    return ("tensor",) + cargs[1:]
+
+            return S()
+
+        ctx = Ctx(args=("TensorCls", data) + (() if ins is None else (ins,)), namespace=dict(np=np, isinstance=isinstance, dict=dict, tuple=tuple, TensorMeta="TensorMeta"), data=data, ins=ins, calls=calls, st=st, sup=sup)
+        return ctx
+
+    def hooks(self, ctx):
+        return {"super": ctx.sup}
+
+    def ensures(self, ctx, result):
+        import numpy as np
+
+        kind, inputs = ctx.st
+        if len(ctx.calls) != 1 or len(ctx.calls[0]) != 3:
+            return [("constructs_once_with_three_arguments", False)]
+        d, ins, dtype = ctx.calls[0]
+        exp_ins = () if inputs == "none" else (("i", "Bint[3]"),)
+        if kind == "numpy-scalar":
+            same = isinstance(d, np.ndarray) and d.shape == () and float(d) == 1.5
+        else:
+            same = d is ctx.data
+        return [("the_array_object_itself_is_wrapped", same), ("inputs_as_a_tuple_of_pairs_and_default_dtype", ins == exp_ins and isinstance(ins, tuple) and dtype == "real")]
